@@ -101,6 +101,30 @@ def _pts(name, rng, thorough):
     return out
 
 
+def _sweep(name, rng, thorough):
+    """structured sweep of the documented domain: every binade near one (every 8th far away; thorough: every binade, every 2nd far away) x
+    fraction patterns (1.0, 1.0101.., 1.1, 1.11..1, 1.0..01) x both signs, built from the format alone"""
+    import math
+    F = Fraction
+    hi = 119 if rng is None else int(math.floor(math.log2(rng)))
+    if name in ('asin', 'acos'):
+        hi = -1
+    near = range(-34, min(hi, 34) + 1)
+    far = [s_ for s_ in range(-119, hi + 1, 2 if thorough else 8) if s_ not in near]
+    pats = [F(1), F(4, 3), F(3, 2), 2 - F(2) ** -27, 1 + F(2) ** -27, F(11, 8), F(7, 4), F(5, 4)]
+    out = []
+    for i, s_ in enumerate(list(near) + far):
+        sel = pats if (thorough and s_ in near) else [pats[(i + j) % len(pats)] for j in (0, 3)] if s_ in near else [pats[i % len(pats)]]
+        for f_ in sel:
+            v = f_ * F(2) ** s_
+            if rng is not None and v >= rng:
+                continue
+            out.append(v)
+            if name not in ('ln', 'log2'):
+                out.append(-v)
+    return out
+
+
 BIN_PTS = {
     'atan2': [(1, 1), (1, -1), (-1, -1), (-1, 1), (1, 2), (3, -4), (0, 1), (1, 1000), (1000, 1), (-5, 12), (1, 3), (7, 2)],
     'hypot': [(3, 4), (5, 12), (1, 1), (1000, 1), (1, 1000), (8, 15), (-3, 4), (7, 24), (1, 3), (100000, 100000)],
@@ -129,7 +153,7 @@ def ulp_probe_task(ctx, prog, name, bound, pts, binary=False):
         sv = u - (1 << 32) if u >> 31 else u
         return AAgg(P32.tykey, [AInt.const(32, True, sv)])
     for pt in pts:
-        us = [P.encode(Fraction(x)) if x != 0 else 0 for x in (pt if binary else (pt,))]
+        us = [x[1] if isinstance(x, tuple) and x[0] == 'enc' else (P.encode(Fraction(x)) if x != 0 else 0) for x in (pt if binary else (pt,))]
         vals = [P.decode(u) for u in us]
         if not binary:
             want = spec_math.rounded(P, name, us[0])
@@ -159,7 +183,7 @@ def ulp_probe_task(ctx, prog, name, bound, pts, binary=False):
             continue
         st['points'] += 1
         d = abs(P.order_key(r.uval()) - P.order_key(want))
-        st['max_ulp_%s' % name] = max(st['max_ulp_%s' % name], d)
+        st['dist_%s_%d' % (name, d)] += 1     # histogram of encoding distances (summable over the worker chunks)
         if d > bound:
             f = ctx.finding('ULP', 'P32E2::%s' % name, 'bound', 'P32E2::%s(%s) = %#x is %d encodings away from the correctly rounded %#x (stated bound %d)'
                             % (name, ', '.join('%#x' % u for u in us), r.uval(), d, want, bound), {'function': path, 'points': []})
@@ -191,7 +215,8 @@ def run(ctx):
                        lambda cell: [posit_arg(P32, cell[0][0], cell[0][1], 0), posit_arg(P32, cell[1][0], cell[1][1], 1)], [cells, cells], bspec(name), 32)
         tot += decided(st)
     # ULP probes: constant propagation through the whole function (the generic Polynom / Quire calls are resolved by run-time type) at points
-    # chosen from the function's definition (powers of two, simple rationals, multiples of pi/4, domain and range edges); singleton verdicts only
+    # chosen from the function's definition (powers of two, simple rationals, multiples of pi/4, domain and range edges), on a structured sweep of the documented domain
+    # (binades x fraction patterns x signs) and next to every literal the function compares its argument with; singleton verdicts only
     import rules_rounding
     thorough = ctx.tier == 'thorough'
     tasks = []
@@ -199,11 +224,28 @@ def run(ctx):
         pts = _pts(name, rng, thorough)
         if not thorough:
             pts = pts[::2] if len(pts) > 80 else pts
-        tasks.append((ulp_probe_task, (name, bound, pts), {}))
+        pts = list(pts) + _sweep(name, rng, thorough)
+        # the encodings next to every literal the function (and its near callees) compares its argument with: where it switches formulas
+        path = prog.inherent(P32.tykey, name)
+        if path:
+            P = P32.posit
+            for c in sorted(lits_for(prog, path, 32, depth=1)):
+                for u in (c - 1, c, c + 1):
+                    u &= 0xffffffff
+                    v = P.decode(u)
+                    if v != S.NAR and v != 0 and (rng is None or abs(v) < rng):
+                        pts.append(('enc', u))
+        ctx.count('ulp_points_requested_' + name, len(pts))
+        for i in range(0, len(pts), 40):
+            tasks.append((ulp_probe_task, (name, bound, pts[i:i + 40]), {}))
     for name, bound in BINARY.items():
         pts = [(Fraction(a), Fraction(b)) for a, b in BIN_PTS[name]] + BIN_FRAC.get(name, [])
         tasks.append((ulp_probe_task, (name, bound, pts), dict(binary=True)))
     st = rules_rounding.run_parallel(ctx, prog, tasks, prefix='ulp_')
+    for name in list(UNARY) + list(BINARY):
+        ds = [int(k.rsplit('_', 1)[1]) for k in st if k.startswith('dist_%s_' % name)]
+        if ds:
+            ctx.cov['ulp_max_distance_' + name] = max(ds)
     ctx.rules.append('ULP probes: constant propagation of each function at definition-derived points vs the 400-bit oracle (bound stated by the crate)')
     ctx.trusted += ['mpmath 1.3 at 400 bits with a two-sided margin test (a point whose rounding is not certain is skipped)', 'run-time resolution of the generic Polynom / Quire trait calls by argument type (sa/dyntraits.py)']
     nsplit = split_constants(ctx, prog)
